@@ -216,6 +216,47 @@ def pidfile_gone(pf: int, hups: int, sig: int) -> bool:
     return fs.files == {} and not fs.fds                           # no pid file (old or new name) and no temp file is left
 
 
+# ---- 1c. backing out of an upgrade, then stopping: the old master is alone again and cleans up after itself -----------------
+def backout(si: int, sig: int) -> bool:
+    """
+    pre: 0 <= si <= 3 and 0 <= sig <= 2
+    post: __return__
+    """
+    si, sig = pick(si, 0, 3), pick(sig, 0, 2)
+    status = [0, 256, 9, 3 << 8][si]                 # how the re-exec'd master went away (clean stop, error, killed, "boot error")
+    stop = [int(signal.SIGTERM), int(signal.SIGINT), int(signal.SIGQUIT)][sig]
+    K = KS.Kernel(tape=[1], statuses=[status], master_signals=[0, stop], budget=6)
+    arb = mk_arbiter(K, 0, timeout=30)
+    arb.cfg.graceful_timeout = 0.5
+    arb.cfg.reuse_port = False
+    lsn = [Lsn("/run/g.sock"), Lsn(("127.0.0.1", 8000))]
+    arb.LISTENERS = list(lsn)
+    arb.pidfile = PidRec()
+    new_master = K.fork()                            # the process USR2 started
+    arb.reexec_pid = new_master
+    unlinked = []
+    undo = KS.install(A, K)
+    saved_os = GS.os
+    GS.os = ns("GS.os", unlink=lambda p: unlinked.append(p))
+    A.sock = GS
+    code = None
+    try:
+        try:
+            arb.run()
+        except KS.LoopBudget:
+            pass
+        except SystemExit as e:
+            code = e.code
+    finally:
+        undo()
+        GS.os = saved_os
+    if code != 0:
+        return False
+    if arb.reexec_pid != 0:
+        return False                                 # the upgrade is over: the old master is the only master again
+    return unlinked == ["/run/g.sock"] and all(l.closed == 1 for l in lsn) and arb.pidfile.unlinked >= 1
+
+
 def master_twin(sig: int, d: List[int], stub: List[bool], reexec: bool, child_of: bool) -> bool:
     """
     pre: sig == CASE["sig"] and reexec == CASE["reexec"] and child_of == CASE["child_of"]
@@ -607,6 +648,8 @@ OBLIGATIONS = [
     Ob("C04.pidfile_gone", "pidfile_gone", timeout=600,
        bound="start with a pid file, 0..2 reloads that keep or move the path, then TERM / INT / QUIT: real Arbiter.run/reload/halt "
              "with the real Pidfile class on the FS stub"),
+    Ob("C04.backout", "backout", timeout=300,
+       bound="USR2'd master exits (status 0 / 1 / killed / 3) while the upgrade is pending, then TERM / INT / QUIT to the old master"),
     Ob("C04.master.twin", "master_twin", cases=[{"n": 2, "sig": 0, "reexec": False, "child_of": False}], expect="refute", timeout=300),
     Ob("C04.sync_term", "sync_term", cases={"quick": [{"tmax": 8, "nconn": 2}, {"tmax": 8, "nconn": 2, "again": 1}, {"tmax": 8, "nconn": 1, "again": 2}],
                                             "thorough": [{"tmax": 12, "nconn": 3}, {"tmax": 12, "nconn": 2, "again": 1}, {"tmax": 12, "nconn": 2, "again": 2},
